@@ -146,6 +146,18 @@ class StreamGen:
         for i in chosen:
             cons = [m for m in mvs if m[1] == i]
             p = None
+            holes = sorted(set(h for c in cons for h in c[6]))
+            if holes and rng.random() < 0.6:
+                # an application context in the hole, built directly (random patterns almost never are one)
+                h = holes[0]
+                p = T.evar(h) if rng.random() < 0.7 else T.mv(rng.choice(self.k.mvars), holes=(h,))
+                for _ in range(rng.randint(0, 2)):
+                    side = self.pat(depth=1)
+                    if not T.e_fresh(side, h):
+                        side = T.sym(0)
+                    p = T.app(p, side) if rng.random() < 0.5 else T.app(side, p)
+                plugs.append(p)
+                continue
             for _ in range(6):
                 p = self.pat(depth=rng.randint(0, 2))
                 if rng.random() < self.p_bad:
